@@ -1,13 +1,13 @@
 SPECIFICATION Spec
 CONSTANTS MaxVer = 2
-          MaxParts = 1
-          MaxCrash = 1
+          MaxParts = 2
+          MaxCrash = 2
           MaxGrow = 1
           TornHeader = TRUE
           SyncBeforeFlip = TRUE
-          PickNewer = FALSE
+          PickNewer = TRUE
           SavepointTwoPhase = FALSE
-          RepairSync = TRUE
+          RepairSync = FALSE
           SavepointPreFlush = TRUE
 INVARIANTS TypeOK RecoveryOk PrimaryServable AckedDurable
 CHECK_DEADLOCK FALSE
